@@ -65,8 +65,15 @@ class FakeService:
         self.started = True
 
     def stopService(self):
+        """Like ClientService: fires at once when there is no connection, otherwise after the
+        connection has been closed (the `svc_stopped` op)."""
         self.started = False
-        if self.stopping is None:
+        c = getattr(self, "client", None)
+        if c is not None:
+            c.log.append(("stopService",))
+        if c is None or c.conn is None:
+            return defer.succeed(None)
+        if self.stopping is None or self.stopping.called:
             self.stopping = defer.Deferred()
         return self.stopping
 
@@ -77,6 +84,7 @@ class FakeWS:
 
     def sendMessage(self, payload, isBinary):
         self.conn.c2s.append(bytes(payload))
+        self.conn.client.log.append(("tx", bytes_to_dict(payload)))
 
 
 class _Factory:
@@ -143,6 +151,7 @@ class Client:
         self.index = index
         self.delegated = delegated
         self.events = []        # application-visible events in order: (name, value)
+        self.log = []           # everything observable in call order: ("tx", frame) / ("ev", name, value) / ("stopService",)
         self.api_errors = []    # exceptions raised to the application by API calls
         self.internal = []      # exceptions that escaped ws_open/ws_message/turns (internal failures)
         self.conn = None
@@ -156,6 +165,7 @@ class Client:
             kw["dilation"] = True
         self.w = wormhole.create(APPID, "ws://relay.invalid:4000/v1", world.clock, **kw)
         self.svc = FakeService.instances[n0]
+        self.svc.client = self
         self.boss = self.w._boss
         self.rc = self.boss._RC
         self.side = self.boss._side
@@ -178,6 +188,7 @@ class Client:
 
     def event(self, name, value=None):
         self.events.append((name, value))
+        self.log.append(("ev", name, value))
 
     # -- introspection
     def states(self):
@@ -268,6 +279,10 @@ class World:
         c = self.clients[ci]
         if c.conn is None or not c.conn.s2c:
             return "noop"
+        if c.svc.stopping is not None and not c.svc.stopping.called:
+            # ClientService.stopService() did transport.loseConnection(): Twisted has stopped
+            # reading, nothing more is delivered on this connection
+            return "noop"
         payload = c.conn.s2c.popleft()
         return self._guard(c, lambda: c.rc.ws_message(payload)) or "ok"
 
@@ -315,7 +330,7 @@ class World:
             ev = LOGGED[-1]
             f = ev.get("log_failure") or ev.get("failure")
             name = type(f.value).__name__ if f is not None else "logged-error"
-            c.internal.append((name, "in eventual turn"))
+            c.internal.append((name, "in eventual turn", name))
             return name
         return "ok"
 
@@ -421,8 +436,7 @@ class World:
                     self.c2s(ci)
                     progress = True
                     n += 1
-                while c.conn is not None and c.conn.s2c:
-                    self.s2c(ci)
+                while c.conn is not None and c.conn.s2c and self.s2c(ci) != "noop":
                     progress = True
                     n += 1
                 if c.eq._calls:
